@@ -14,6 +14,8 @@
 Require Import V.Base.MachineInt V.Generated.GenConsts V.Model.Descriptor V.Model.LogBase.
 Open Scope Z_scope.
 
+Notation "' p <- e ;; k" := (bind e (fun p => k)) (at level 61, p pattern, e at next level, right associativity).
+
 Definition TERM_APPENDER_FAILED : Z := GenConsts.TERM_APPENDER_FAILED.   (* -2 *)
 Definition MAX_MESSAGE_LENGTH : Z := GenConsts.MAX_MESSAGE_LENGTH.
 
